@@ -2,11 +2,11 @@
 {
  'package': 'brush-core',
  'host': 'brush-core/src/jobs.rs',
- 'stubs': ['tracing -> no-op stub crate', 'crate::error::Error -> unit struct inside the harness module (no task ever fails in these harnesses; the real type only contributes drop glue)',
+ 'stubs': ['tracing -> no-op stub crate', 'crate::error::Error -> light struct inside the harness module (the real type only contributes drop glue)',
            'JobTask::wait().await (tokio join handle / child process wait) -> oracle: answers Completed, or Stopped at a symbolic point; records which task was awaited',
            'JobTask::poll() -> oracle: finished / still running per task from a symbolic table',
            'Job / JobManager data are duck-typed inside the harness module (a task is a token, the task deque an array of <= 2 tokens); every statement of wait_all, Job::wait, sweep_completed_jobs, poll, poll_done and add_as_current is the repository\'s text'],
- 'assumptions': ['<= 3 jobs, <= 2 tasks per job (concrete shapes listed per harness)', 'the oracle never returns an error from a task wait (error paths end the harness path)'],
+ 'assumptions': ['<= 3 jobs, <= 2 tasks per job (concrete shapes listed per harness)', 'at most one task per scenario ends with an error'],
  'out_of_claim': ['that awaiting a task means its effects are visible (tokio / kernel happens-before)', 'output ordering of background jobs',
                   'the wait/jobs/fg/bg builtins and `wait` with arguments', 'job tables with more than 3 live jobs / histories longer than the listed scripts'],
 }
@@ -66,18 +66,21 @@ pub struct Mgr { pub jobs: Vec<Job> }
 pub struct E0;
 pub struct Oracle {
     pub stop_at: u8,            // the k-th task wait (1-based) reports "stopped"; 0 = never
+    pub fail_at: u8,            // the k-th task wait (1-based) finds that the task ended with an error; 0 = never
     pub waits: u8,
     pub awaited: [u8; 12],       // per task id: number of completed waits
     pub finished: [bool; 12],    // poll answers per task id
     pub polls: u8,
 }
 impl Oracle {
-    pub fn new() -> Self { Oracle { stop_at: 0, waits: 0, awaited: [0; 12], finished: [false; 12], polls: 0 } }
+    pub fn new() -> Self { Oracle { stop_at: 0, fail_at: 0, waits: 0, awaited: [0; 12], finished: [false; 12], polls: 0 } }
     fn wait_task(&mut self, t: &mut Task) -> Result<JobTaskWaitResult, error::Error> {
         self.waits += 1;
         if self.waits == self.stop_at { return Ok(JobTaskWaitResult::Stopped); }
         let i = t.id as usize; kani::assume(i < 12);
         self.awaited[i] += 1;
+        // a task that ended in a fatal error has ended: its join handle must never be awaited again (tokio panics)
+        if self.waits == self.fail_at { return Err(error::Error(1)); }
         Ok(JobTaskWaitResult::Completed(ExecutionResult::success()))
     }
     fn poll_task(&mut self, t: &mut Task) -> Option<Result<ExecutionResult, error::Error>> {
@@ -154,6 +157,38 @@ fn wait_all_shape(counts: [usize; 3], njobs: usize) {
     }
     std::mem::forget(done); std::mem::forget(mgr);
 }
+
+/// a background job may end with a fatal error (e.g. `{ : ${nope?bad}; } &`): the error comes out of the task's wait
+fn wait_all_with_a_failing_task(counts: [usize; 3], njobs: usize) {
+    let mut jobs = Vec::with_capacity(4);
+    let mut total = 0u8;
+    let mut k = 0;
+    while k < njobs { jobs.push(Job::mk(k as u8, counts[k], k + 1)); total += counts[k] as u8; k += 1; }
+    let mut mgr = Mgr { jobs };
+    let mut o = Oracle::new();
+    o.fail_at = kani::any();
+    kani::assume(o.fail_at >= 1 && o.fail_at <= total);
+    let first = t_wait_all(&mut mgr, &mut o);
+    kani::cover!(o.fail_at == 1 && total >= 2, "first_awaited_task_failed");
+    assert!(first.is_err(), "C17.wait_all.failure_of_a_job_is_reported");
+    // `wait` still waits: every task of every job was awaited, once
+    let mut j = 0;
+    while j < njobs {
+        assert!(o.awaited[j * 2] == if counts[j] >= 1 { 1 } else { 0 } && o.awaited[j * 2 + 1] == if counts[j] >= 2 { 1 } else { 0 }, "C17.wait_all.every_task_awaited_even_after_a_job_failed");
+        j += 1;
+    }
+    // a later `wait` finds nothing left to wait for and never touches a finished task again
+    let second = t_wait_all(&mut mgr, &mut o);
+    let mut i = 0;
+    while i < 6 { assert!(o.awaited[i] <= 1, "C17.wait_all.finished_task_never_awaited_again"); i += 1; }
+    assert!(second.is_ok() && mgr.jobs.len() == 0, "C17.wait_all.second_wait_is_clean");
+    std::mem::forget(first); std::mem::forget(second); std::mem::forget(mgr);
+}
+
+//@proof {'props': ['C17', 'C01'], 'tier': 'quick', 'timeout': 900, 'uses': ['job_wait', 'wait_all', 'sweep'], 'bounds': '3 jobs with 1 + 2 + 1 tasks; one task (symbolic which) ends with a fatal error; `wait` is called twice', 'desc': 'a failing background job does not cut `wait` short: every task of every job is still awaited exactly once and the failure is reported; a second `wait` never awaits a finished task again (tokio panics on a join handle polled after completion)'}
+#[kani::proof]
+#[kani::unwind(6)]
+fn vk_c17_wait_all_with_a_failing_job() { wait_all_with_a_failing_task([1, 2, 1], 3); }
 
 //@proof {'props': ['C17'], 'tier': 'quick', 'timeout': 900, 'uses': ['job_wait', 'wait_all', 'sweep'], 'bounds': '2 jobs with 2 + 1 tasks; the point at which a task reports "stopped" is symbolic (or never)', 'desc': 'wait_all returns only after every task of every job was awaited to completion, exactly once; finished jobs reported once in order and removed; a stopped job stays'}
 #[kani::proof]
